@@ -15,11 +15,13 @@ Definition opt_list {A} (o : option (list A)) : list A := match o with Some l =>
 
 Fixpoint render_node (c : oconfig) (n : anode) : str :=
   match n with
-  | ANode nm v _ at_ ch _ =>
+  | ANode nm v _ at_ ch sc =>
       let tag := tag_name c (match nm with Some s => s | None => [] end) in
-      c_lt :: tag ++ attrs_text_out c (opt_list at_) ++ [c_gt]
-      ++ value_text (nonempty v) ++ concat (map (render_node c) ch)
-      ++ [c_lt; c_slash] ++ tag ++ [c_gt]
+      c_lt :: tag ++ attrs_text_out c (opt_list at_) ++
+      (if sc && match ch with [] => true | _ => false end && negb (truthy_l v)
+       then self_close c ++ [c_gt]                              (* `<name attrs />` by selfClosingStyle *)
+       else [c_gt] ++ value_text (nonempty v) ++ concat (map (render_node c) ch)
+            ++ [c_lt; c_slash] ++ tag ++ [c_gt])
   end.
 Definition render_forest (c : oconfig) (l : list anode) : str := concat (map (render_node c) l).
 
@@ -29,7 +31,7 @@ Definition no_vfield (v : option (list vtok)) : Prop :=
 Definition plain_out (c : oconfig) (n : anode) : Prop :=
   match an_name n with
   | Some ((_ :: _) as nm) =>
-      nl_free (tag_name c nm) /\ mem_str nm (oc_format_force c) = false /\ an_self n = false /\
+      nl_free (tag_name c nm) /\ mem_str nm (oc_format_force c) = false /\
       Forall (fun a => form_nl_free (attr_out_spec c a)) (opt_list (an_attrs n)) /\
       value_inline c (an_value n) /\ no_vfield (an_value n)
   | _ => False
@@ -69,7 +71,7 @@ Section Plain.
     cbn [nodes] in H. inversion H as [|x y Hn Hk]; subst.
     unfold plain_out in Hn. cbn [strip an_name an_self an_attrs an_value] in Hn.
     destruct nm as [[|c0 name]|]; try contradiction.
-    destruct Hn as [Htag [Hforce [Hself [Hattrs [Hval Hnf]]]]]. subst sc.
+    destruct Hn as [Htag [Hforce [Hattrs [Hval Hnf]]]].
     (* the children *)
     assert (HK : forall node i st0, an_children node = ch ->
                  os_value (fs_out ((fix go (i : nat) (l : list anode) (st : fstate) : fstate :=
@@ -82,7 +84,7 @@ Section Plain.
       induction ch as [|k r IH]; intros i st0; [cbn; rewrite app_nil_r; reflexivity|].
       inversion HF as [|? ? Hc Hl]; subst. cbn [flat_map] in Hk. apply Forall_app in Hk. destruct Hk as [Hk1 Hk2].
       rewrite (IH Hl Hk2). rewrite (Hc Hk1). cbn [map concat]. rewrite <- app_assoc. reflexivity. }
-    cbn [html_element an_name an_attrs an_self an_children an_value andb].
+    cbn [html_element an_name an_attrs an_self an_children an_value].
     rewrite !(should_format_off c _ _ _ _ Hfmt). cbn [andb]. rewrite !(comment_off c _ _ _ Hcom).
     rewrite Hleaf, Hforce. cbn [orb].
     assert (Hfold : forall st0,
@@ -94,26 +96,31 @@ Section Plain.
     { intros st0. destruct at_ as [[|a l]|]; try (cbn; rewrite app_nil_r; reflexivity).
       apply push_attributes_value. exact Hattrs. }
     rewrite map_out_value by (intros; apply add_level_value).
-    rewrite push_str_value by (repeat (apply nl_free_cons; [reflexivity|]); apply nl_free_app; [exact Htag|reflexivity]).
     cbn [render_node].
     destruct v as [[|v0 V]|]; cbn [truthy_l negb andb nonempty value_text value_inline no_vfield] in *.
     - (* value = Some [] *)
       destruct ch as [|k r].
-      + rewrite push_tokens_value by (repeat constructor). rewrite push_str_value by reflexivity. rewrite Hfold.
-        rewrite push_str_value by (apply nl_free_cons; [reflexivity|exact Htag]).
-        rewrite map_out_value by (intros; apply add_level_value).
-        cbn [map concat app tok_text caret]. rewrite <- !app_assoc. reflexivity.
-      + rewrite (HK (ANode (Some (c0 :: name)) (Some []) rp at_ (k :: r) false) 0 _ eq_refl).
+      + destruct sc; cbn [andb].
+        * rewrite push_str_value by (apply nl_free_app; [apply self_close_nl_free|reflexivity]). rewrite Hfold.
+          rewrite push_str_value by (apply nl_free_cons; [reflexivity|exact Htag]).
+          rewrite map_out_value by (intros; apply add_level_value).
+          cbn [app]. rewrite <- !app_assoc. reflexivity.
+        * rewrite push_str_value by (repeat (apply nl_free_cons; [reflexivity|]); apply nl_free_app; [exact Htag|reflexivity]).
+          rewrite push_tokens_value by (repeat constructor). rewrite push_str_value by reflexivity. rewrite Hfold.
+          rewrite push_str_value by (apply nl_free_cons; [reflexivity|exact Htag]).
+          rewrite map_out_value by (intros; apply add_level_value).
+          cbn [map concat app tok_text caret]. rewrite <- !app_assoc. reflexivity.
+      + rewrite andb_false_r. cbn [andb].
+        rewrite push_str_value by (repeat (apply nl_free_cons; [reflexivity|]); apply nl_free_app; [exact Htag|reflexivity]).
+        rewrite (HK (ANode (Some (c0 :: name)) (Some []) rp at_ (k :: r) sc) 0 _ eq_refl).
         rewrite push_str_value by reflexivity. rewrite Hfold.
         rewrite push_str_value by (apply nl_free_cons; [reflexivity|exact Htag]).
         rewrite map_out_value by (intros; apply add_level_value).
         cbn [app]. rewrite <- !app_assoc. reflexivity.
     - (* value = Some (v0 :: V) *)
       destruct Hval as [Hv1 [Hv2 Hv3]].
-      assert (Hsnip : match ch with
-                      | [] => @None fstate
-                      | _ :: _ => match find_field_ix (v0 :: V) with Some _ => None | None => None end
-                      end = None) by (destruct ch; [reflexivity|rewrite (find_field_none _ Hnf); reflexivity]).
+      rewrite !andb_false_r.
+      rewrite push_str_value by (repeat (apply nl_free_cons; [reflexivity|]); apply nl_free_app; [exact Htag|reflexivity]).
       rewrite Hv2, Hv3. cbn [orb].
       destruct ch as [|k r].
       + rewrite push_tokens_value by exact Hv1. rewrite push_str_value by reflexivity. rewrite Hfold.
@@ -121,18 +128,26 @@ Section Plain.
         rewrite map_out_value by (intros; apply add_level_value).
         cbn [map concat app]. rewrite <- !app_assoc. reflexivity.
       + rewrite (find_field_none _ Hnf).
-        rewrite (HK (ANode (Some (c0 :: name)) (Some (v0 :: V)) rp at_ (k :: r) false) 0 _ eq_refl).
+        rewrite (HK (ANode (Some (c0 :: name)) (Some (v0 :: V)) rp at_ (k :: r) sc) 0 _ eq_refl).
         rewrite push_tokens_value by exact Hv1. rewrite push_str_value by reflexivity. rewrite Hfold.
         rewrite push_str_value by (apply nl_free_cons; [reflexivity|exact Htag]).
         rewrite map_out_value by (intros; apply add_level_value).
         cbn [app]. rewrite <- !app_assoc. reflexivity.
     - (* no value *)
       destruct ch as [|k r].
-      + rewrite push_tokens_value by (repeat constructor). rewrite push_str_value by reflexivity. rewrite Hfold.
-        rewrite push_str_value by (apply nl_free_cons; [reflexivity|exact Htag]).
-        rewrite map_out_value by (intros; apply add_level_value).
-        cbn [map concat app tok_text caret]. rewrite <- !app_assoc. reflexivity.
-      + rewrite (HK (ANode (Some (c0 :: name)) None rp at_ (k :: r) false) 0 _ eq_refl).
+      + destruct sc; cbn [andb].
+        * rewrite push_str_value by (apply nl_free_app; [apply self_close_nl_free|reflexivity]). rewrite Hfold.
+          rewrite push_str_value by (apply nl_free_cons; [reflexivity|exact Htag]).
+          rewrite map_out_value by (intros; apply add_level_value).
+          cbn [app]. rewrite <- !app_assoc. reflexivity.
+        * rewrite push_str_value by (repeat (apply nl_free_cons; [reflexivity|]); apply nl_free_app; [exact Htag|reflexivity]).
+          rewrite push_tokens_value by (repeat constructor). rewrite push_str_value by reflexivity. rewrite Hfold.
+          rewrite push_str_value by (apply nl_free_cons; [reflexivity|exact Htag]).
+          rewrite map_out_value by (intros; apply add_level_value).
+          cbn [map concat app tok_text caret]. rewrite <- !app_assoc. reflexivity.
+      + rewrite andb_false_r. cbn [andb].
+        rewrite push_str_value by (repeat (apply nl_free_cons; [reflexivity|]); apply nl_free_app; [exact Htag|reflexivity]).
+        rewrite (HK (ANode (Some (c0 :: name)) None rp at_ (k :: r) sc) 0 _ eq_refl).
         rewrite push_str_value by reflexivity. rewrite Hfold.
         rewrite push_str_value by (apply nl_free_cons; [reflexivity|exact Htag]).
         rewrite map_out_value by (intros; apply add_level_value).
@@ -167,9 +182,9 @@ Definition elem_out_ok (m : mconfig) (c : oconfig) (e : selem) : Prop :=
 Lemma elem_plain_out m c e :
   selem_ok e -> elem_out_ok m c e -> plain_out c (resolved_node (mc_reverse_attrs m) e).
 Proof.
-  intros [[Hne HF] _] [Hforce [Hattrs Hval]]. unfold plain_out, resolved_node. cbn [an_name an_self an_attrs an_value].
+  intros [[Hne HF] _] [Hforce [Hattrs Hval]]. unfold plain_out, resolved_node. cbn [an_name an_attrs an_value].
   destruct (se_name e) as [|c0 nm] eqn:En; [congruence|].
-  split; [apply tag_name_nl_free; exact HF|]. split; [exact Hforce|]. split; [reflexivity|]. split.
+  split; [apply tag_name_nl_free; exact HF|]. split; [exact Hforce|]. split.
   - unfold merged_mentions. destruct (written_mentions e); [constructor|exact Hattrs].
   - split; [exact Hval|]. unfold elem_text_value, text_value, no_vfield.
     destruct (se_text e) as [[|t0 T]|]; try exact I. reflexivity.
